@@ -79,7 +79,10 @@ func zzModelStreamCancelRead(s *quic.Stream, code quic.StreamErrorCode) {
 }
 
 //verif:model (*github.com/apernet/quic-go.Stream).CancelWrite
-func zzModelStreamCancelWrite(s *quic.Stream, code quic.StreamErrorCode) {}
+func zzModelStreamCancelWrite(s *quic.Stream, code quic.StreamErrorCode) {
+	st := zzStream(s)
+	st.ops = append(st.ops, "cancelwrite")
+}
 
 //verif:model (*github.com/apernet/quic-go.Stream).SetReadDeadline
 func zzModelStreamSetReadDeadline(s *quic.Stream, t time.Time) error { return nil }
